@@ -4,6 +4,61 @@ from pvc.api import *
 IF = 'prysm.interferogram.'
 
 
+@harness('C13', 'psd/bins-axes-and-scale', fuc=['prysm.interferogram.psd', 'prysm.interferogram.make_window', 'prysm.fttools.forward_ft_unit',
+                                               'prysm.coordinates.broadcast_1d_to_2d'])
+def psd_bins():
+    """MODULAR on the library transform: with F = fft2(.) of whatever psd hands to fft2 (an arbitrary complex array in the
+    symbolic run, the real transform in the replay), for every shape (odd/even, non-square), spacing and user window:
+    psd transforms the windowed height (origin-rolled by ifftshift, which only changes the phase of F); psd[i,j] =
+    |F[(i - m//2) mod m, (j - n//2) mod n]|^2 / (sum(window^2) / dx^2) - the GH_FFT power scaling with DFT bin k stored at index
+    k + n//2; and the returned axes are (j - n//2)/(n dx), (i - m//2)/(m dx), the frequency numpy's fftfreq assigns to exactly
+    that bin: the zero-frequency term sits where both axes are zero, for either parity."""
+    m, n = Int('m', 1), Int('n', 1)
+    h, w = Array('h', (m, n)), Array('w', (m, n))
+    dx = Real('dx', pos=True)
+    i, j = idx(m, 'i'), idx(n, 'j')
+    seen = {}
+    if MODE == 'symbolic':
+        from pvc import symnp
+        F = Array('F', (m, n), 'c')
+        old = symnp.fft.__dict__.get('fft2')
+
+        def fake(a, *args, **kw):
+            seen['arg'] = a
+            return F
+        symnp.fft.fft2 = fake
+        try:
+            ux, uy, p = call(IF + 'psd', h, dx, window=w)
+        finally:
+            if old is None:
+                del symnp.fft.fft2
+            else:
+                symnp.fft.fft2 = old
+        freq = lambda N, k: elem(symnp.fft.fftfreq(N, dx), k)
+    else:
+        import numpy as np
+        assume(bool((w * w).sum() > 1e-6))
+        ux, uy, p = call(IF + 'psd', h, dx, window=w)
+        seen['arg'] = np.fft.ifftshift(h * w)
+        F = np.fft.fft2(seen['arg'])
+        freq = lambda N, k: np.fft.fftfreq(N, dx)[k]
+    fs = 1 / dx
+    coef = sum_value(sigma(m, lambda y: sigma(n, lambda x: elem(w, y, x) * elem(w, y, x))) * fs * fs)     # GH_FFT: S2 fs^2
+    if MODE == 'symbolic':
+        assume(coef != 0)
+    hw = lambda a, b: elem(h, a, b) * elem(w, a, b)
+    # a cyclic roll of the input only changes the phase of F: no roll, ifftshift and fftshift are all acceptable
+    check('transforms-the-windowed-height', Or(approx(elem(seen['arg'], i, j), hw(i, j), 1e-9),
+                                               approx(elem(seen['arg'], i, j), hw((i + m // 2) % m, (j + n // 2) % n), 1e-9),
+                                               approx(elem(seen['arg'], i, j), hw((i - m // 2) % m, (j - n // 2) % n), 1e-9)))
+    check('shape', shape_is(p, m, n))
+    bi, bj = (i - m // 2) % m, (j - n // 2) % n
+    check('bin-at-centred-index-with-power-scaling', approx(elem(p, i, j) * coef, abs2(elem(F, bi, bj)), 1e-7))
+    check('x-axis-is-the-frequency-of-that-bin', And(approx(elem(ux, 0, j), (j - n // 2) / (n * dx), 1e-9), approx(freq(n, bj), elem(ux, 0, j), 1e-9)))
+    check('y-axis-is-the-frequency-of-that-bin', And(approx(elem(uy, i, 0), (i - m // 2) / (m * dx), 1e-9), approx(freq(m, bi), elem(uy, i, 0), 1e-9)))
+    check('zero-frequency-where-the-axes-are-zero', And(elem(ux, 0, n // 2) == 0, elem(uy, m // 2, 0) == 0))
+
+
 @harness('C13', 'bounded/psd-normalisation-and-bands', kind='bounded',
          variants=['parseval', 'axes-and-alignment', 'band-algebra', 'full-band', 'synthetic-surface-rms', 'interferogram-methods'],
          fuc=['prysm.interferogram.psd', 'prysm.interferogram.make_window', 'prysm.interferogram.bandlimited_rms',
